@@ -438,6 +438,10 @@ func (w *binaryWriter) Finish() error {
 		if w.err = w.emit(seq); w.err != nil {
 			return w.err
 		}
+
+		// Start buffering the next datagram, so values written after Finish
+		// get their own version marker and symbol table.
+		w.bufs.push(&datagram{})
 	}
 
 	return nil
